@@ -32,11 +32,17 @@ func (x *c12) checkClose() {
 		bWaited   = 1 << 3
 		bOwnOther = 1 << 4 // won a test-and-set of a flag other than running
 		bClosedCh = 1 << 5
+		bUnkTAS   = 1 << 6 // a test-and-set of an unidentifiable flag was branched on
 	)
+	sawUnk := false
 	var guardFlag FieldID
 	sawTake, sawCloseCh := false, false
 	cl := &xClient{NoInline: func(f *ssa.Function) bool { return x.anchors[f] && f != fn }}
 	cl.OnBranch = func(s *xState, ifi *ssa.If, cond xVal, truth bool) bool {
+		if x.unresolvedTAS(cond) {
+			s.Client |= bUnkTAS
+			sawUnk = true
+		}
 		if x.tasTried(cond, x.cmRunning) {
 			s.Client |= bTriedRun
 			sawTake = true
@@ -65,7 +71,9 @@ func (x *c12) checkClose() {
 			return true
 		}
 		if x.closeOf(s, in, x.cmStopped) {
-			if s.Client&bOwnRun == 0 {
+			if s.Client&bOwnRun == 0 && s.Client&bUnkTAS != 0 {
+				x.undecide("%s closes the shutdown channel at %s after a test-and-set of a flag the check cannot identify", fname, x.pos(in))
+			} else if s.Client&bOwnRun == 0 {
 				x.bad("C12.K4-stopped", cGuard, x.pos(in), "Close closes the shutdown channel at "+x.pos(in)+" on a path on which its own test-and-set of running did not succeed: Run and Close (or two Close calls) can both close it — panic")
 			}
 			if s.Client&bStopped != 0 {
@@ -75,7 +83,9 @@ func (x *c12) checkClose() {
 		}
 		if x.closeOf(s, in, x.cmCloseCh) {
 			sawCloseCh = true
-			if s.Client&bOwnOther == 0 {
+			if s.Client&bOwnOther == 0 && s.Client&bUnkTAS != 0 {
+				x.undecide("%s closes the channel that stops the runners at %s after a test-and-set of a flag the check cannot identify", fname, x.pos(in))
+			} else if s.Client&bOwnOther == 0 {
 				x.bad("C12.K4-closech", cOnce, x.pos(in), "the channel that stops the runners is closed at "+x.pos(in)+" on a path on which no atomic test-and-set of a dedicated flag succeeded: a repeated or concurrent Close closes it twice and panics")
 			}
 			if s.Client&bClosedCh != 0 {
@@ -124,7 +134,9 @@ func (x *c12) checkClose() {
 	}
 	ex := newXplorer(p, x.ssaPkg, cl)
 	ex.Explore(fn, nil, 0)
-	if !sawTake {
+	if !sawTake && sawUnk {
+		x.undecide("%s test-and-sets a flag the check cannot identify; whether it takes the running flag is not decided", fname)
+	} else if !sawTake {
 		x.bad("C12.K4-stopped", cTake, p.Pos(fn.Pos()), "Close no longer test-and-sets the running flag of the manager: Close on a manager that never ran does not prevent a later Run (or blocks forever waiting for the shutdown channel)")
 	}
 	if !sawCloseCh {
